@@ -28,7 +28,7 @@ Fixpoint find_meth (n : string) (t : list meth) : option meth :=
   match t with [] => None | m :: r => if String.eqb (m_name m) n then Some m else find_meth n r end.
 
 (* start-up code that runs before the service is handed to other goroutines: not an entry point, not inlined *)
-Definition startup_methods : list string := ["messagepickup.Service.Initialize"].
+Definition startup_methods : list string := ["messagepickup.Service.Initialize"; "mediator.Service.Initialize"].
 Definition callee (n : string) : option meth :=
   if existsb (String.eqb n) startup_methods then None else find_meth n table.
 
@@ -68,7 +68,8 @@ Definition prefixb (p s : string) : bool := String.prefix p s.
 
 (* objects created per call and never shared between goroutines: their fields need no lock *)
 Definition local_objects : list string :=
-  ["mem.memIterator."; "messagepickup.inbox."; "localkms.storeWriter."; "leveldb.dbEntry."; "leveldb.iterator."].
+  ["mem.memIterator."; "messagepickup.inbox."; "localkms.storeWriter."; "leveldb.dbEntry."; "leveldb.iterator.";
+   "mediator.callback."].   (* created per action event, handed to ONE goroutine through the callbacks channel *)
 
 (* a field that only start-up code writes is configuration: read-only once the service is shared *)
 Definition written_after_startup (f : string) : bool :=
@@ -220,3 +221,14 @@ Definition split_rmw : list (string * string) :=
   filter (fun x => negb (existsb (fun y => String.eqb (fst x) (fst y) && String.eqb (snd x) (snd y)) rmw_exempt))
     (flat_map (fun m => map (fun f => (m_name m, f)) (filter (fun f => negb (rmw_one m f)) (rmw_fields m))) entries).
 Definition rmw_ok : bool := match split_rmw with [] => true | _ => false end.
+
+(* ---------- request/response rendezvous (C13/Rendezvous.v): the handler of an inbound response hands it to the waiting
+   requester over an unbuffered channel; its send must be abandonable (inside a select with a time-out clause), or a
+   response that arrives when the requester has left blocks its goroutine for good ---------- *)
+Definition rendezvous_handlers : list string :=
+  ["messagepickup.Service.handleStatus"; "messagepickup.Service.handleBatch"; "mediator.Service.handleKeylistUpdateResponse"].
+Definition sends_of (f : string) : list (string * string * bool) :=
+  filter (fun x => String.eqb (fst (fst x)) f) chan_sends.
+Definition unbounded_handlers : list string :=
+  filter (fun f => match sends_of f with [] => true | l => negb (forallb snd l) end) rendezvous_handlers.
+Definition rendezvous_sends_bounded : bool := match unbounded_handlers with [] => true | _ => false end.
